@@ -17,7 +17,7 @@ RULE = (
 )
 ASSUMPTIONS = c01.ASSUMPTIONS
 CASE_TIMEOUT = 60
-CORPUS = c01.CORPUS[:3]
+CORPUS = c01.CORPUS[:4]
 
 
 def generate(rng, tier):
@@ -25,7 +25,11 @@ def generate(rng, tier):
     cases = list(CORPUS)
     for i in range(n):
         m = i % 10
-        if m < 5:
+        if m == 0:
+            cases.append(sc.gen_pipeline(rng))
+        elif m == 1:
+            cases.append(sc.gen_shared_equal(rng) if i % 20 == 1 else sc.gen_relay2(rng))
+        elif m < 5:
             cases.append(sc.gen_dag(rng))
         elif m < 9:
             cases.append(sc.gen_ring(rng, sufficient=True))
